@@ -41,6 +41,12 @@ fn res<T>(r: Result<T, Vec<darling::Error>>, f: impl Fn(&T) -> String) -> String
 
 fn run(req: &Sx) -> String {
     let l = req.list();
+    if l[0].atom() == "shape_api" {
+        let b = |i: usize| l[i].atom() == "1";
+        let sh = match l[5].atom() { "Named" => darling::util::Shape::Named, "Tuple" => darling::util::Shape::Tuple, "Unit" => darling::util::Shape::Unit, _ => darling::util::Shape::Newtype };
+        let (e, c, r) = entry_shape_api(b(1), b(2), b(3), b(4), sh);
+        return format!("{{\"empty\":{},\"contains\":{},\"check\":{}}}", e, c, match r { Ok(()) => "null".to_string(), Err(m) => jstr(&m) });
+    }
     let src = l[2].text();
     match l[0].atom() {
         "di" => {
